@@ -46,6 +46,7 @@ GNext ==
           \/ W_Exit(t) /\ H([a |-> "W_Exit", t |-> t])
           \/ W_Fail(t) /\ H([a |-> "W_Fail", t |-> t])
           \/ W_ExtStop(t) /\ H([a |-> "W_ExtStop", t |-> t])
+          \/ W_Gone(t) /\ H([a |-> "W_Gone", t |-> t])
 GSpec == GInit /\ [][GNext]_gvars
 
 Emit == (pc' = "done") => PrintT(<<"@@GEN@@", ToJson(hist')>>)
